@@ -52,6 +52,9 @@ class Check:
         self.exhaustive = False
         self.rule = ""
         self.explanation = ""
+        REPLAYS.mkdir(exist_ok=True)
+        for old in REPLAYS.glob(f"{pid}-*.json"):
+            old.unlink()
         self.findings = [f for f in load_findings() if f["property"] == pid or pid in f.get("also", [])]
         self.open_findings = {f["id"]: f for f in self.findings if f["status"] == "open"}
 
@@ -99,7 +102,7 @@ class Check:
                 continue
             n = seen_clause.get(v["clause"], 0)
             seen_clause[v["clause"]] = n + 1
-            if n >= 5:
+            if n >= 40:
                 continue
             p = REPLAYS / f"{self.pid}-{digest(v)}.json"
             p.write_text(json.dumps(v, indent=1, default=str))
